@@ -18,6 +18,9 @@ def _streams(prop, quick_random, thorough_random):
             # refused or come first; a Bind accepted after the serving call picked up the old listener is the defect
             # repaired by a1069ea (before the repair about one trial in three hit it)
             out.append(("lifeprobe", ["-n", "60" if tier == "quick" else "300"]))
+            # draining rests on the per-connection read giving up when its context ends, whatever the reader holds
+            # (C17's stream: real transports + generated traces over the tracing connection)
+            out.append(("cancel", ["-n", "234" if tier == "quick" else "3034"]))
         return out
     return f
 
